@@ -11,12 +11,18 @@ typedef struct
 	long calls ;			/* number of callbacks performed */
 	/* faults: from call number fault_at on (1-based; 0 = never), kind: 1 zero transfer, 2 short transfer, 3 seek fails, 4 length lies high, 5 length lies low */
 	long fault_at ; int fault_kind ; int fault_once ; int fault_done ;
+	/* copy of the bytes the store held when the first fault fired ("data the I/O layer accepted before the failure") */
+	unsigned char *snap ; sf_count_t snap_len ; int snapped ;
 } VIO_MEM ;
 
 static int vio_faulty (VIO_MEM *m)
 {	m->calls ++ ;
 	if (m->fault_at == 0 || m->calls < m->fault_at) return 0 ;
 	if (m->fault_once && m->fault_done) return 0 ;
+	if (! m->snapped)
+	{	m->snapped = 1 ; m->snap_len = m->len ; m->snap = malloc (m->len + 1) ;
+		if (m->len) memcpy (m->snap, m->data, m->len) ;
+		} ;
 	return 1 ;
 }
 static sf_count_t vio_get_filelen (void *u)
@@ -67,12 +73,13 @@ static sf_count_t vio_write (const void *ptr, sf_count_t count, void *u)
 static sf_count_t vio_tell (void *u) { VIO_MEM *m = u ; return m->pos ; }
 static SF_VIRTUAL_IO vio_mem_io = { vio_get_filelen, vio_seek, vio_read, vio_write, vio_tell } ;
 
-static void vio_reset (VIO_MEM *m) { m->len = 0 ; m->pos = 0 ; m->calls = 0 ; m->fault_at = 0 ; m->fault_done = 0 ; }
+static void vio_unsnap (VIO_MEM *m) { free (m->snap) ; m->snap = NULL ; m->snap_len = 0 ; m->snapped = 0 ; }
+static void vio_reset (VIO_MEM *m) { m->len = 0 ; m->pos = 0 ; m->calls = 0 ; m->fault_at = 0 ; m->fault_done = 0 ; vio_unsnap (m) ; }
 static void vio_set (VIO_MEM *m, const void *data, sf_count_t len)
 {	vio_reset (m) ;
 	if (len > m->cap) { m->data = realloc (m->data, len + 16) ; m->cap = len + 16 ; }
 	if (len) memcpy (m->data, data, len) ;
 	m->len = len ;
 }
-static void vio_free (VIO_MEM *m) { free (m->data) ; memset (m, 0, sizeof (*m)) ; }
+static void vio_free (VIO_MEM *m) { free (m->data) ; free (m->snap) ; memset (m, 0, sizeof (*m)) ; }
 #endif
